@@ -2,7 +2,9 @@
 //! table as part of their query. If they can't, the query will not be routed.
 
 use async_trait::async_trait;
-use sqlparser::ast::{visit_relations, CopySource, ObjectName, Statement};
+use sqlparser::ast::{
+    visit_relations, CopySource, ObjectName, Query, SetExpr, Statement, Visit, Visitor,
+};
 
 use crate::{
     errors::Error,
@@ -17,6 +19,49 @@ use core::ops::ControlFlow;
 pub struct TableAccess<'a> {
     pub enabled: bool,
     pub tables: &'a Vec<String>,
+}
+
+/// Finds `TABLE name` used as (part of) a query body, e.g. `INSERT INTO t TABLE name` or
+/// `SELECT ... UNION ALL TABLE name`: the parser keeps that name as plain text, not as a
+/// relation, and does not say whether it was quoted.
+struct TableExpressions<'a> {
+    tables: &'a Vec<String>,
+    found: Option<String>,
+}
+
+impl<'a> Visitor for TableExpressions<'a> {
+    type Break = ();
+
+    fn pre_visit_query(&mut self, query: &Query) -> ControlFlow<Self::Break> {
+        let mut pending = vec![query.body.as_ref()];
+
+        while let Some(body) = pending.pop() {
+            match body {
+                SetExpr::Table(table) => {
+                    if let Some(name) = &table.table_name {
+                        let folded = name.to_lowercase();
+
+                        if self.tables.contains(name) {
+                            self.found = Some(name.clone());
+                        } else if self.tables.contains(&folded) {
+                            self.found = Some(folded);
+                        }
+
+                        if self.found.is_some() {
+                            return ControlFlow::Break(());
+                        }
+                    }
+                }
+                SetExpr::SetOperation { left, right, .. } => {
+                    pending.push(left.as_ref());
+                    pending.push(right.as_ref());
+                }
+                _ => (),
+            }
+        }
+
+        ControlFlow::Continue(())
+    }
 }
 
 #[async_trait]
@@ -72,6 +117,16 @@ impl<'a> Plugin for TableAccess<'a> {
                     }
                 }
             }
+        }
+
+        // Nor is the table of a `TABLE name` query body.
+        if found.is_none() {
+            let mut visitor = TableExpressions {
+                tables: self.tables,
+                found: None,
+            };
+            let _ = ast.visit(&mut visitor);
+            found = visitor.found;
         }
 
         if let Some(found) = found {
